@@ -143,7 +143,7 @@ func runC07(r *core.Run) {
 			})
 		}
 		if code != 224 {
-			jobs = append(jobs, job{fill: 4096, depth: 1, code: code}, job{fill: 127, depth: 2, code: code})
+			jobs = append(jobs, job{fill: 4096, depth: 1, code: code}, job{fill: 4097, depth: 1, code: code}, job{fill: 127, depth: 2, code: code})
 		}
 	}
 	var n int64
